@@ -4,6 +4,21 @@ verus! {
 
 pub trait Packet { const ID: VarInt; }
 
+/// Abstract (typed) view of the clientbound packets the router sends; the vocabulary of the
+/// connection-level properties (C01, C02, C03, C06, C07, C10).
+pub enum Sent {
+    StatusResponse { body: Seq<char> },
+    Pong { payload: u64 },
+    LoginCookieRequest { key: Seq<char> },
+    EncryptionRequest { server_id: Seq<char>, public_key: Seq<u8>, verify_token: Seq<u8>, should_authenticate: bool },
+    LoginSuccess { user_name: Seq<char>, user_id: Uuid },
+    KeepAlive { id: u64 },
+    Disconnect { reason: Seq<char> },
+    StoreCookie { key: Seq<char>, payload: Seq<u8> },
+    Transfer { host: Seq<char>, port: u16 },
+    Other { id: int, body: Seq<u8> },
+}
+
 /// Protocol-side description of a packet type (from contracts.toml, written from the protocol).
 pub trait WireSpec: Sized {
     /// wire layout of the packet body followed by `tail` (right-nested so that decoders compose)
@@ -14,15 +29,15 @@ pub trait WireSpec: Sized {
     spec fn same(&self, o: &Self) -> bool;
     /// the packet id the protocol assigns
     spec fn proto_id() -> int;
+    /// typed abstract view (only meaningful for the packets the router sends)
+    spec fn view_sent(&self) -> Sent;
 }
 
 pub trait WritePacket: Packet + WireSpec {
     fn write_to_buffer(&self, buffer: &mut Vec<u8>) -> (r: Result<(), Error>)
-        requires
-            self.in_limits(),
         ensures
-            r is Ok, // @cl:C09.packet.write.ok
-            final(buffer)@ == old(buffer)@ + self.enc_then(Seq::empty()), // @cl:C09.packet.write.layout
+            self.in_limits() ==> r is Ok, // @cl:C09.packet.write.ok
+            self.in_limits() ==> final(buffer)@ == old(buffer)@ + self.enc_then(Seq::empty()), // @cl:C09.packet.write.layout
     ;
 }
 
